@@ -115,7 +115,7 @@ func addSplitToMapping(d dvid.Data, v dvid.VersionID, op labels.SplitOp) error {
 	splitSupervoxels := make(labels.Set)
 	remainSupervoxels := make(labels.Set)
 
-	splits := lmap.splits[v]
+	var splits []proto.SupervoxelSplitOp
 	for supervoxel, svsplit := range op.SplitMap {
 		deleteSupervoxels[supervoxel] = struct{}{}
 		splitSupervoxels[svsplit.Split] = struct{}{}
@@ -136,7 +136,7 @@ func addSplitToMapping(d dvid.Data, v dvid.VersionID, op labels.SplitOp) error {
 		// TODO -- for each split, we log each supervoxel split.
 	}
 	lmap.splitsMu.Lock()
-	lmap.splits[v] = splits
+	lmap.splits[v] = append(lmap.splits[v], splits...)
 	lmap.splitsMu.Unlock()
 
 	mapOp := labels.MappingOp{
